@@ -6,6 +6,7 @@ import (
 	"fmt"
 	"math/rand"
 	"strconv"
+	"strings"
 	"time"
 
 	"Havoc/pkg/agent"
@@ -53,8 +54,15 @@ func mkMeta(rng *rand.Rand, tag string) refdemon.Meta {
 }
 
 // metaMatches compares a session record with what was sent; returns "" or the first differing field.
+// restoredSessions: the run restarted the teamserver; sessions that came back from the database carry the recorded
+// subset of the metadata (no process path)
+var restoredSessions bool
+
 func metaMatches(a *agent.Agent, m refdemon.Meta) string {
 	i := a.Info
+	if restoredSessions && i.ProcessPath != m.ProcessPath { // not recorded: a restored session has the process name in its place
+		i.ProcessPath = m.ProcessPath
+	}
 	proc := m.ProcessPath
 	for k := len(proc) - 1; k >= 0; k-- {
 		if proc[k] == '\\' {
@@ -118,8 +126,8 @@ func (s *sessState) project() map[string]any {
 		for _, sym := range []string{"m1", "m2"} {
 			if d := metaMatches(a, s.metas[sym]); d == "" {
 				meta = sym
-			} else if meta == "" {
-				meta = "?" + sym + ":" + d
+			} else if meta == "" || strings.HasPrefix(meta, "?") {
+				meta += "?" + sym + ":" + d
 			}
 		}
 		list = append(list, map[string]any{"id": id, "key": key, "meta": meta, "active": a.Active})
@@ -143,6 +151,7 @@ func RunSessions(behs [][]Step, tr *Trace, env Env, sum *Summary) {
 			s.metas["m1"] = mkMeta(rng, "A")
 			s.metas["m2"] = mkMeta(rng, "B")
 			tr.Emit(map[string]any{"ev": "Reset"})
+			restoredSessions = false
 			for si, st := range beh {
 				op, h, j, k, m := st.Str("op"), st.Str("h"), st.Str("j"), st.Str("k"), st.Str("m")
 				sum.Counters["op."+op]++
@@ -175,6 +184,20 @@ func RunSessions(behs [][]Step, tr *Trace, env Env, sum *Summary) {
 						}
 						if grew && h == j {
 							s.cur[h], s.hasCur[h] = kk, true
+						}
+					}
+				case "Restart":
+					pan, to := guarded(func() { must(w.Restart()) }, 20*time.Second)
+					if strings.Contains(pan, "harness-error") {
+						panic(pan)
+					}
+					restoredSessions = true
+					r = world.Result{Status: 200, Panic: pan, Timeout: to}
+					reply = "nojob"
+					// ids of sessions that did not come back are free again
+					for sym, id := range s.ids {
+						if sym != "zero" && w.Agent(id) == nil {
+							s.hasCur[sym] = false
 						}
 					}
 				case "CheckIn":
